@@ -271,14 +271,17 @@ def run_iter_scenario(p, wd):
         names = [f"v{i}" for i in range(nf)]
         n0 = tuple(p["n0"]) if p.get("n0") else ((16, 16, 16) if nd == 3 else (32, 16))
         pf = gen.make_pf(ndims=nd, names=names, n0=n0, geo_lo=(0.5, -1., 2.)[:nd], dx0=(0.25, 0.5, 1.0)[:nd],
-                         nlevels=p["nlevels"], nfiles=p["nfiles"], layout=p["layout"], seed=p["seed"], box=8,
-                         box_sizes=(8, 16) if p["seed"] % 2 else None)
+                         nlevels=p["nlevels"], nfiles=p["nfiles"], layout=p["layout"], seed=p["seed"],
+                         box=p["box"] if isinstance(p.get("box"), int) else 8,
+                         box_sizes=(8, 16) if (p["seed"] % 2 and not isinstance(p.get("box"), int)) else None)
         fsels = [0, nf - 1, names[0], slice(None), list(range(nf)), slice(1, None), slice(None, None, 2)]
         if nf >= 3:
             fsels += [[0, nf - 1], slice(1, 3), [1, 2]]
         fsels = fsels[:4] + rng.sample(fsels[4:], min(3, len(fsels) - 4))
         # negative indices (normalised by the selector before they reach the file scanners)
         fsels += [-1, [-1]] + ([[0, -1], np.array([-2, -1])] if nf >= 2 else [])
+        if p.get("few_selectors"):
+            fsels = [0, slice(None)]
     path = os.path.join(wd, "plt")
     gen.write_plotfile(path, pf)
     pck = PlotfileCooker(path)
@@ -292,7 +295,7 @@ def run_iter_scenario(p, wd):
             bsels = [perm[:4], np.array(perm[-3:]), mask, slice(None), slice(None, None, 2), slice(None, None, 3), slice(1, None, 2),
                      slice(None, None, -1), slice(None, None, -2), slice(nb - 1, 0, -3), [-1, 0], 0, -1,
                      [], slice(nb, None), slice(2, 1), np.zeros(nb, dtype=bool)]
-            for bsel in bsels[:4] + rng.sample(bsels[4:13], 4) + bsels[13:]:
+            for bsel in (bsels[2:4] + [slice(None, None, -1), perm] if p.get("few_selectors") else bsels[:4] + rng.sample(bsels[4:13], 4) + bsels[13:]):
                 check_read(pck, pf, rng.choice([0, slice(None), [nf - 1]]), lv, bsel, fails, counter, via="iter")
                 if fails and "terminate" in fails[-1]["what"]:
                     # a blocked pool thread is left behind: one such report per scenario is enough
